@@ -348,12 +348,35 @@ func c02r4(w *World, rr *RuleRun) {
 		})
 	}
 	// lastKey: v is the key result of Next() on an iterator of inner on which Last() was called just before
+	depthLast := 0
+	var lastKeyFn func(fn *ssa.Function, v ssa.Value) (bool, string)
 	lastKey := func(fn *ssa.Function, v ssa.Value) (bool, string) {
 		ex, ok := v.(*ssa.Extract)
 		if !ok || ex.Index != 0 {
 			return false, "deleted key is not result 0 of an iterator Next()"
 		}
 		nx, ok := ex.Tuple.(*ssa.Call)
+		if ok && isMapCall(nx, "Next") == nil {
+			// a module helper that returns the iterator-last entry (e.g. Type.last())
+			if g := nx.Call.StaticCallee(); g != nil && w.P.IsLib(g) && g != fn && depthLast < 2 {
+				depthLast++
+				defer func() { depthLast-- }()
+				n := 0
+				for _, b := range g.Blocks {
+					for _, ins := range b.Instrs {
+						if ret, isRet := ins.(*ssa.Return); isRet && len(ret.Results) > 0 {
+							n++
+							if okH, why := lastKeyFn(g, ret.Results[0]); !okH {
+								return false, "helper " + shortFuncName(g) + ": " + why
+							}
+						}
+					}
+				}
+				if n > 0 {
+					return true, "key = " + shortFuncName(g) + "() = Iterator().Last(); Next()"
+				}
+			}
+		}
 		if !ok || isMapCall(nx, "Next") == nil {
 			return false, "deleted key is not produced by Next()"
 		}
@@ -391,6 +414,7 @@ func c02r4(w *World, rr *RuleRun) {
 		}
 		return true, "key = Iterator().Last(); Next()"
 	}
+	lastKeyFn = lastKey
 	nSet, nDel := 0, 0
 	eachInstr([]*ssa.Function{push}, func(fn *ssa.Function, ins ssa.Instruction) {
 		if c := isMapCall(ins, "Set"); c != nil && len(c.Args) == 3 {
